@@ -49,6 +49,12 @@ fn classes_of(digest: &[u8; 20]) -> Vec<String> {
     if neg && digest[1..].iter().all(|b| *b == 0) {
         c.push("neg_low_bytes_zero(carry chain)".into());
     }
+    // a negation done word by word has to carry out of an all-zero low word
+    for (bits, from) in [(16usize, 18usize), (24, 17), (32, 16)] {
+        if digest[from..].iter().all(|b| *b == 0) {
+            c.push(format!("{}_low_{bits}_bits_zero", if neg { "neg" } else { "pos" }));
+        }
+    }
     c
 }
 
@@ -112,7 +118,7 @@ impl Check for C11 {
         decide(case)
     }
     fn rule(&self) -> String {
-        "random (server id, secret, key); non-trivial = digest negative, or with a leading zero nibble/byte in its printed magnitude; distinct = distinct input. extra: reference-mined inputs with >= 3 leading zero (or F) nibbles; the serverId the real Mojang adapter sends to the loopback mock for 16 configured server ids; whole logins against a passage child process whose server id (numeric / boolean look-alikes included) comes from a configuration file or the environment".into()
+        "random (server id, secret, key); non-trivial = digest negative, or with a leading zero nibble/byte in its printed magnitude; distinct = distinct input. extra: reference-mined inputs with >= 3 leading zero (or F) nibbles or >= 16 (quick) / 24 (thorough, 2^33 inputs scanned) trailing zero bits; two stored inputs whose digests end in 32 zero bits (one negative, one positive); the serverId the real Mojang adapter sends to the loopback mock for 16 configured server ids; whole logins against a passage child process whose server id (numeric / boolean look-alikes included) comes from a configuration file or the environment".into()
     }
     fn assumptions(&self) -> Vec<String> {
         vec![
@@ -122,7 +128,7 @@ impl Check for C11 {
     }
     fn extra(&self, tier: Tier, seed: u64, stats: &Stats) -> Vec<(String, String, Value)> {
         // mine rare digest classes with the reference, then check them against the real function
-        let n: u64 = tier.pick(1 << 20, 1 << 25);
+        let n: u64 = tier.pick(1 << 22, 1 << 33);
         let threads = 16u64;
         let found = std::sync::Mutex::new(Vec::new());
         let mined = std::sync::atomic::AtomicU64::new(0);
@@ -137,7 +143,9 @@ impl Check for C11 {
                         let d = refcrypto::sha1(&[b"", &secret, &key]);
                         let lead = u32::from_be_bytes([d[0], d[1], d[2], d[3]]);
                         // >= 3 leading zero nibbles, or negative with >= 3 leading F nibbles, or 0x80 0x00 ..
-                        let rare = lead >> 20 == 0 || lead >> 20 == 0xfff || (d[0] == 0x80 && d[1] == 0);
+                        // ... or at least 16 (quick) / 24 (thorough) low zero bits
+                        let low_zero = d[19] == 0 && d[18] == 0 && (n <= (1 << 22) || d[17] == 0);
+                        let rare = lead >> 20 == 0 || lead >> 20 == 0xfff || (d[0] == 0x80 && d[1] == 0) || low_zero;
                         if rare {
                             mined.fetch_add(1, std::sync::atomic::Ordering::Relaxed);
                             let case = Case { server_id: String::new(), secret: secret.to_vec(), key: key.to_vec(), via_adapter: false, configured: None };
